@@ -87,7 +87,21 @@ def r1_writers(L, repo):
                 L.ob("C12.R1", m.rel, qualname(n), "writer of the plain tuning state `%s`" % canon(n),
                      "only Transceiver.__init__ and the RXTUNE / TXTUNE handler (CTRLInterfaceTRX.parse_cmd)", sorted(own),
                      own <= {"Transceiver.__init__", "CTRLInterfaceTRX.parse_cmd"}, n.lineno)
-    L.floor("C12.R1", "writers of the plain tuning state", n_tune, 4)
+    L.floor("C12.R1", "writers of the plain tuning state", n_tune, 2)
+    # the peer a link talks to is fixed by the port plan at construction (R5): nothing re-points it at run time
+    # (e.g. "reply to whoever sent last" makes an injected datagram redirect all Rx bursts away from L1's +102)
+    n_peer = 0
+    for m in repo.tk_modules():
+        for a_ in ("remote_addr", "remote_port", "base_port"):
+            for n, kind in attr_accesses(m.tree, a_):
+                if kind == "load":
+                    continue
+                n_peer += 1
+                own = owners(m, n)
+                L.ob("C12.R5", m.rel, qualname(n), "writer of the peer address / port plan `%s`" % canon(n),
+                     "only constructors (UDPLink.__init__ and subclasses, Transceiver.__init__)", sorted(own),
+                     all(o.endswith(".__init__") for o in own), n.lineno)
+    L.floor("C12.R5", "writers of remote_addr / remote_port / base_port", n_peer, 3)
     # callers of power_event_handler
     n_call = 0
     for m in repo.tk_modules():
@@ -192,6 +206,37 @@ def r2_propagation(L, repo):
             L.ob("C12.R2", F, fn, "otherwise only the transceiver itself is selected", "[self] in the else branch",
                  "%s under %s" % (v, lit_fmt(lits)), v == "[self]" and comp, d.lineno)
     L.require("C12.R2", F, fn, "one definition per branch", {"children": 1, "self": 1}, seen)
+    # "forgets all queued bursts": every container of the transceiver that the arrival path appends a burst to is
+    # emptied (cleared or re-bound to an empty container) by tx_queue_clear()
+    c3, app = repo.find_method(ci, "tx_queue_append")
+    c4, clr = repo.find_method(ci, "tx_queue_clear")
+    if app is not None and clr is not None:
+        filled = set()
+        for c in ast.walk(app):
+            if isinstance(c, ast.Call) and isinstance(c.func, ast.Attribute) and c.func.attr in ("append", "extend", "insert", "appendleft", "put", "add") \
+                    and isinstance(c.func.value, ast.Attribute) and isinstance(c.func.value.value, ast.Name) and c.func.value.value.id == "self":
+                filled.add(c.func.value.attr)
+            if isinstance(c, ast.AugAssign) and isinstance(c.target, ast.Attribute) and isinstance(c.target.value, ast.Name) and c.target.value.id == "self":
+                filled.add(c.target.attr)
+        emptied = set()
+        for c in ast.walk(clr):
+            if isinstance(c, ast.Call) and isinstance(c.func, ast.Attribute) and c.func.attr == "clear" \
+                    and isinstance(c.func.value, ast.Attribute) and isinstance(c.func.value.value, ast.Name) and c.func.value.value.id == "self":
+                emptied.add(c.func.value.attr)
+            if isinstance(c, ast.Assign):
+                for t in c.targets:
+                    if isinstance(t, ast.Attribute) and isinstance(t.value, ast.Name) and t.value.id == "self" \
+                            and (isinstance(c.value, (ast.List, ast.Tuple)) and not c.value.elts or isinstance(c.value, ast.Call) and not c.value.args):
+                        emptied.add(t.attr)
+            if isinstance(c, ast.Delete):
+                for t in c.targets:
+                    if isinstance(t, ast.Subscript) and isinstance(t.slice, ast.Slice) and t.slice.lower is None and t.slice.upper is None \
+                            and isinstance(t.value, ast.Attribute):
+                        emptied.add(t.value.attr)
+        L.fn(F, "Transceiver.tx_queue_clear")
+        L.floor("C12.R2", "containers the arrival path fills", len(filled), 1)
+        L.ob("C12.R2", F, "Transceiver.tx_queue_clear", "every container tx_queue_append() fills is emptied by tx_queue_clear() (power-off forgets all queued bursts)",
+             sorted(filled), sorted(emptied & filled), filled <= emptied, clr.lineno)
     # disable_fh really forgets the hopping configuration
     ci2, dfh = repo.need_method("transceiver", "Transceiver", "disable_fh")
     st = [n for n in ast.walk(dfh) if isinstance(n, ast.Assign) and canon(n.targets[0]) == "self.fh"]
